@@ -120,6 +120,8 @@ impl Module {
         section: wasmparser::GlobalSectionReader,
         ids: &mut IndicesToIds,
     ) -> Result<()> {
+        #[cfg(walrus_verif)]
+        crate::verif::emit("interpret", "global", -1, -1);
         log::debug!("parse global section");
         for g in section {
             let g = g?;
